@@ -94,7 +94,19 @@ def evaluate(case):
         make_jail(j)
         names = name_alphabet(j)
         ents = [(names[ni], ki, tov) for (ni, ki, tov) in case["entries"]]
-        img = build_case_image(j, ents, case["nested"], "-X" in case["opts"], case.get("ext", False))
+        if case.get("mirror"):
+            # legal names only: a chain of directories that spells the ABSOLUTE path of an object outside the unpack root (without the leading '/');
+            # a path used before it is made relative lands on the host object
+            comps = os.fsencode(j).strip(b"/").split(b"/") + [b"outside"]
+            leaf = {"file": F(b"mirror payload\n", mode=0o4777, uid=0, gid=0, mtime=999), "dir": D([(b"n", F(b"x"), None)], mode=0o777, mtime=999)}[case["mirror"]]
+            leaf.xattrs = {b"user.hostile": b"1"}
+            leaf.ext = True
+            node = D([((b"s1" if case["mirror"] == "file" else b"sd"), leaf, None)], mode=0o777, mtime=999, xattrs={b"user.hostile": b"2"}, ext=True)
+            for c in reversed(comps):
+                node = D([(c, node, None)], mode=0o755)
+            img, _f = mkimg.build(node)
+        else:
+            img = build_case_image(j, ents, case["nested"], "-X" in case["opts"], case.get("ext", False))
         ip = os.path.join(j, "hostile.sqfs")
         open(ip, "wb").write(img)
         os.utime(ip, (1111111111, 1111111111))
@@ -227,6 +239,10 @@ def gen_cases(tier):
             for order in itertools.permutations([(0, k_sl, tov), (0, 1, None), (4, 0, None)]):
                 add(list(order), opts=FILT[:1] + FILT[4:])
                 add(list(order), nested=True, opts=FILT[:1])
+    # the image spells the absolute path of an outside object with legal names
+    for kind_ in ("file", "dir"):
+        for o in (["-X"], ["-C", "-O", "-T", "-X"], ["-C"], ["-O", "-T"], []):
+            cases.append(dict(entries=[], nested=False, opts=o, upath="/", preexist=False, ext=False, mirror=kind_))
     # unpack of a sub path
     for ni in (0, 2, 6):
         for ki in (0, 1, 4, 5):
